@@ -509,7 +509,7 @@ class IntervalNumpyPS(IntervalPS):
         if description is None:
             return []
 
-        min_, max_ = description
+        min_, max_ = description if not isinstance(description, Number) else (description, description)
         if base_objects_i is None:
             flg = (min_ <= self._data[:,0]) & (self._data[:, 1] <= max_)
             return flg.nonzero()[0].tolist()
